@@ -370,6 +370,39 @@ func runC19(w *World, r *Report) {
 		statelessObligation(w, r, "transcoders-stateless", fn)
 	}
 
+	// … and reads its input from bytes nobody rewrites while the decoded value is in use: the decoder keeps sub-slices of
+	// its input for []byte fields, so a buffer kept on a long-lived struct (or handed to ValueCopy for reuse) changes
+	// vertices that were returned earlier
+	r.rule("decode-input-not-reused", "no stored record is decoded from a buffer that is kept for reuse: (*badger.Item).ValueCopy is given nil, and the bytes passed to the decoders do not come from a field of a long-lived struct or a package-level variable", 3)
+	for _, fn := range w.RepoFuncs("accountant", "transaction", "spice", "cache") {
+		for _, c := range callsTo(fn, "(*"+badgerPkg+".Item).ValueCopy") {
+			_, a := callArgs(c)
+			isNil := len(a) > 0 && isNilConst(a[0])
+			r.check(isNil, "decode-input-not-reused", shortFn(fn)+"/ValueCopy", lineOf(w, c), "the copy of a stored value goes into a fresh buffer", "ValueCopy reuses "+pathOf(a[0])+": records decoded earlier keep pointing into it")
+		}
+		for _, c := range callsTo(fn, cn("accountant", "", "decodeVertex"), cn("accountant", "", "decodeBalance"), cn("transaction", "", "Decode"), cn("spice", "", "Decode"),
+			"github.com/shamaton/msgpack/v2.Unmarshal", "github.com/vmihailenco/msgpack.Unmarshal") {
+			src := c.Common().Args[0]
+			shared := ""
+			for _, o := range origins(src) {
+				switch x := o.(type) {
+				case *ssa.Global:
+					shared = "package-level " + x.Name()
+				case *ssa.UnOp:
+					if fa, ok := x.X.(*ssa.FieldAddr); ok {
+						if _, fresh := strip(fa.X).(*ssa.Alloc); !fresh && isRepoNamed(fa.X.Type()) {
+							shared = "field " + pathOf(x)
+						}
+					}
+					if g, ok := x.X.(*ssa.Global); ok {
+						shared = "package-level " + g.Name()
+					}
+				}
+			}
+			r.check(shared == "", "decode-input-not-reused", shortFn(fn)+"/"+shortCallee(c), lineOf(w, c), "the decoded bytes are not kept in shared storage", "input comes from "+shared)
+		}
+	}
+
 	r.rule("decode-into-zero-value", "every msgpack decode writes into a destination that is a fresh zero value on each execution (never a variable reused across records)", 2)
 	for _, fn := range w.RepoFuncs("accountant", "transaction", "spice", "cache") {
 		for _, c := range callsTo(fn, "github.com/shamaton/msgpack/v2.Unmarshal", "github.com/vmihailenco/msgpack.Unmarshal") {
@@ -482,4 +515,16 @@ func statelessObligation(w *World, r *Report, rule string, fn *ssa.Function) {
 	}
 	scan(fn, 0)
 	r.check(len(shared) == 0, rule, shortFn(fn), w.Pos(fn.Pos()), "no package-level state is used while transcoding", "uses package-level "+strings.Join(uniqStrings(shared), ", "))
+}
+
+// isRepoNamed: t is (a pointer to) a named struct type of the repository.
+func isRepoNamed(t types.Type) bool {
+	if p, ok := t.Underlying().(*types.Pointer); ok {
+		t = p.Elem()
+	}
+	if p, ok := t.(*types.Pointer); ok {
+		t = p.Elem()
+	}
+	n, ok := t.(*types.Named)
+	return ok && n.Obj().Pkg() != nil && strings.HasPrefix(n.Obj().Pkg().Path(), modPath)
 }
